@@ -57,8 +57,17 @@ def one_table(ctx, groups, metrics, subjects, table, src):
     ctx.count(f"groups.{len(groups)}")
     for order in ("summary-first", "lookup-first"):
         write_table(p, groups, metrics, subjects, table)
-        with quiet():
-            st = Panoptica_Statistic.from_file(p)
+        try:
+            with quiet():
+                st = Panoptica_Statistic.from_file(p)
+        except Exception as e:
+            ctx.violation(f"C20 violated: a well-formed table (groups {groups}, metrics {metrics}) cannot be loaded: {type(e).__name__}: {str(e)[:160]}", inp,
+                          key={"kind": "loader-fails"})
+            return
+        if sorted(st.groupnames) != sorted(groups) or sorted(st.metricnames) != sorted(metrics):
+            ctx.violation(f"C20 violated: the table has groups {groups} and metrics {metrics}; the loaded statistic reports groups {list(st.groupnames)} and metrics "
+                          f"{list(st.metricnames)}", inp, key={"kind": "loader-fails"})
+            return
         if ctx.rng.random() < 0.5:
             # other read-only queries must not disturb later answers
             with quiet():
